@@ -57,6 +57,8 @@ def gen(out, per_file, seed):
     muts = []
     files = sorted(subprocess.check_output(['git', '-C', REPO, 'ls-files', 'src'], text=True).split())
     files = [f for f in files if f.endswith('.rs')]
+    if os.environ.get('MUT_FILES'):
+        files = [f for f in files if re.search(os.environ['MUT_FILES'], f)]
     for rel in files:
         src, lines = code_lines(os.path.join(REPO, rel))
         cands = []
@@ -80,6 +82,30 @@ def gen(out, per_file, seed):
                     continue
                 new = str(v + 1) if not tok.startswith('0x') else hex(v + 1)
                 cands.append({'file': rel, 'line': i, 'col': m.start(), 'old': tok, 'new': new, 'op': 'const+1'})
+            # early returns / option results
+            if re.match(r'\s*return None;\s*$', code):
+                cands.append({'file': rel, 'line': i, 'col': 0, 'old': code, 'new': re.match(r'\s*', code).group(0) + '/* return removed */', 'op': 'del-return'})
+            for m in re.finditer(r'\.\.(?=[\w(])', code):
+                if re.search(r'\d\.\.|\w\.\.\w|\]\.\.|\)\.\.', code[max(0, m.start() - 1):m.end() + 1]) and '..=' not in code[m.start():m.start() + 3]:
+                    cands.append({'file': rel, 'line': i, 'col': m.start(), 'old': '..', 'new': '..=', 'op': 'range-incl'})
+            for m in re.finditer(r'\bwrapping_add\b', code):
+                cands.append({'file': rel, 'line': i, 'col': m.start(), 'old': 'wrapping_add', 'new': 'wrapping_sub', 'op': 'arith'})
+            for m in re.finditer(r'\bis_some\(\)', code):
+                cands.append({'file': rel, 'line': i, 'col': m.start(), 'old': 'is_some()', 'new': 'is_none()', 'op': 'neg'})
+            for m in re.finditer(r'\bis_none\(\)', code):
+                cands.append({'file': rel, 'line': i, 'col': m.start(), 'old': 'is_none()', 'new': 'is_some()', 'op': 'neg'})
+            for m in re.finditer(r'\btrue\b', code):
+                cands.append({'file': rel, 'line': i, 'col': m.start(), 'old': 'true', 'new': 'false', 'op': 'bool-const'})
+            for m in re.finditer(r'\bfalse\b', code):
+                cands.append({'file': rel, 'line': i, 'col': m.start(), 'old': 'false', 'new': 'true', 'op': 'bool-const'})
+            for m in re.finditer(r'get_source\(\)', code):
+                cands.append({'file': rel, 'line': i, 'col': m.start(), 'old': 'get_source()', 'new': 'get_destination()', 'op': 'swap-getter'})
+            for m in re.finditer(r'get_destination\(\)', code):
+                cands.append({'file': rel, 'line': i, 'col': m.start(), 'old': 'get_destination()', 'new': 'get_source()', 'op': 'swap-getter'})
+            for m in re.finditer(r'\.src\b', code):
+                cands.append({'file': rel, 'line': i, 'col': m.start(), 'old': '.src', 'new': '.dst', 'op': 'swap-field'})
+            for m in re.finditer(r'\.dst\b', code):
+                cands.append({'file': rel, 'line': i, 'col': m.start(), 'old': '.dst', 'new': '.src', 'op': 'swap-field'})
             # statement deletion: a call statement on its own line
             if re.match(r'\s*[\w.]+\.(set_\w+|push|push_str|extend_from_slice|append|insert|populate|\w+_drop|\w+_send|\w+_recv)\(.*\);\s*$', code):
                 cands.append({'file': rel, 'line': i, 'col': 0, 'old': code, 'new': re.match(r'\s*', code).group(0) + '/* removed */', 'op': 'del-stmt'})
@@ -97,6 +123,12 @@ def gen(out, per_file, seed):
                 break
         muts += picked
     os.makedirs(out, exist_ok=True)
+    if os.environ.get('MUT_EXCLUDE'):
+        seen_ = set()
+        for p_ in os.environ['MUT_EXCLUDE'].split(':'):
+            for x in json.load(open(p_)):
+                seen_.add((x['file'], x['line'], x['col'], x['old'], x['new']))
+        muts = [m for m in muts if (m['file'], m['line'], m['col'], m['old'], m['new']) not in seen_]
     for k, m in enumerate(muts):
         m['id'] = k
     json.dump(muts, open(os.path.join(out, 'mutants.json'), 'w'), indent=0)
